@@ -189,7 +189,7 @@ def gen_lines(n, seed, procs=None):
     import multiprocessing as mp
     per = max(1, n // 64)
     jobs = [(seed * 1000003 + i, i * per, per) for i in range((n + per - 1) // per)]
-    with mp.get_context("fork").Pool(procs or common.NCPU) as pool:
+    with common.pool(procs or common.NCPU) as pool:
         out = pool.map(_chunk, jobs)
     return [x for ch in out for x in ch]
 
